@@ -364,6 +364,12 @@ class _Gen:
         if self.ext_min(hi) < lo:
             lo = 0
             hi = E
+        if self.twin_budget and E.sym is not None and r.random() < 0.25:
+            # unsafe twin: the upper bound may be below the lower bound
+            self.twin_budget = 0
+            lo = self.ext_min(E) + 1
+            hi = E
+            self.twin_site = f"loop seq({lo}, {E}) although {E} may be {self.ext_min(E)}"
         base = r.choice(["i", "j", "k", "ii", "jj"])
         live = {L.var for L in self.loops}
         if self.kn.hostile_names and base not in live:
@@ -383,7 +389,46 @@ class _Gen:
         self.block(ind + 1, depth + 1, budget - 1)
         self.loops.pop()
 
+    def guarded_access(self, ind):
+        """if v + k < E: <access at v + k>   (unsafe twin: the access sits in the else-branch,
+        or the guard uses <=)"""
+        r = self.rng
+        cands = []
+        for b in self.bufs:
+            for d, E in enumerate(b.shape):
+                for L in self.loops:
+                    if L.hi.key() == E.key() and L.lo == 0:
+                        cands.append((b, d, E, L))
+        if not cands:
+            return False
+        b, d, E, L = r.choice(cands)
+        k = r.choice([1, 1, 2])
+        idx = [self.index_for(e) if j != d else f"{L.var} + {k}" for j, e in enumerate(b.shape)]
+        acc = f"{b.name}[{', '.join(idx)}]"
+        op = "<"
+        twin = None
+        if self.twin_budget and r.random() < 0.6:
+            self.twin_budget = 0
+            twin = r.choice(["else", "le"])
+            self.twin_site = f"guarded access {acc} under 'if {L.var} + {k} < {E}' moved to the {twin} variant"
+            if twin == "le":
+                op = "<="
+        self.emit(ind, f"if {L.var} + {k} {op} {E}:")
+        ws = [w for w in self.writable() if w is not b] or self.writable()
+        tgt = self.read(r.choice(ws)) if ws else None
+        stmt = f"{tgt} = {acc} * 2.0" if (tgt and r.random() < 0.6) or not b.init else f"{acc} = {self.rhs(1)}"
+        if twin == "else":
+            self.emit(ind + 1, "pass")
+            self.emit(ind, "else:")
+            self.emit(ind + 1, stmt)
+        else:
+            self.emit(ind + 1, stmt)
+        self.nstmts += 2
+        return True
+
     def if_(self, ind, depth, budget):
+        if self.loops and self.rng.random() < 0.35 and self.guarded_access(ind):
+            return
         self.emit(ind, f"if {self.cond()}:")
         self.nstmts += 1
         self.block(ind + 1, depth + 1, max(1, (budget - 1) // 2))
@@ -424,7 +469,7 @@ class _Gen:
 
     def window_stmt(self, ind):
         r = self.rng
-        cands = [b for b in self.bufs if len(b.shape) >= 1 and b.kind in ("arg", "tmp")]
+        cands = [b for b in self.bufs if len(b.shape) >= 1 and b.kind in ("arg", "tmp", "win")]
         if not cands:
             return False
         b = r.choice(cands)
